@@ -438,6 +438,8 @@ func (sk *SpaceKeeper) StopWS(sid string) error {
 
 	if ws, ok := sk.workSpaceIndex[allState].Get(sid); !ok || !ws.using {
 		return ErrWorkSpaceDoesNotExist
+	} else {
+		ws.reqEpoch++ // cancels requests still in the hand-off channel or already popped
 	}
 
 	sk.queue.Delete(sid)
@@ -481,6 +483,7 @@ func (sk *SpaceKeeper) RemoveWS(sid string) error {
 			return ErrWorkSpaceIsNotStill
 		}
 	}
+	ws.reqEpoch++ // cancels requests still in the hand-off channel or already popped
 
 	sk.disuseWorkSpace(ws)
 	return nil
@@ -505,6 +508,7 @@ func (sk *SpaceKeeper) DeleteWS(sid string) error {
 			return ErrWorkSpaceIsNotStill
 		}
 	}
+	ws.reqEpoch++ // cancels requests still in the hand-off channel or already popped
 
 	sk.workSpaceIndex[ws.state].Delete(sid)
 	sk.workSpaceIndex[allState].Delete(sid)
